@@ -226,6 +226,54 @@ PARTIAL_MEMO_READERS = {
 }
 
 
+
+def retained_by_memoised_objects(repo, clsname):
+    """Classes whose constructor stores an instance of `clsname` (a parameter annotated with it in the signature comment, or named
+    after it) and that are constructed inside a memoised function. -> ['ClassObject.ctx (created in the memoised ClassScope.resolve)']"""
+    if clsname is None:
+        return []
+    facts = get_facts(repo)
+    memo_keys = {s['key']: s for s in memo_sites(repo)}
+    out = []
+    for ci in facts.classes.values():
+        init = ci.methods.get('__init__')
+        if init is None:
+            continue
+        params = [a.arg for a in init.node.args.args[1:]]
+        # the signature comment `# type: (EvalCtx, ...) -> None` names the classes of the parameters
+        sig = getattr(init.node, 'type_comment', None) or ''
+        typed = []
+        if sig.strip().startswith('('):
+            inner = sig.strip()[1:].split(') ->')[0]
+            depth, cur, parts = 0, '', []
+            for ch in inner:
+                if ch in '[(':
+                    depth += 1
+                elif ch in '])':
+                    depth -= 1
+                if ch == ',' and depth == 0:
+                    parts.append(cur.strip())
+                    cur = ''
+                else:
+                    cur += ch
+            parts.append(cur.strip())
+            typed = [p_ for p_, t_ in zip(params, parts) if clsname in t_]
+        for a in init.node.args.args[1:]:
+            if a.annotation is not None and clsname in unparse(a.annotation) and a.arg not in typed:
+                typed.append(a.arg)
+        kept = [unparse(st.targets[0]) for st in ast.walk(init.node) if isinstance(st, ast.Assign) and len(st.targets) == 1
+                and isinstance(st.targets[0], ast.Attribute) and unparse(st.targets[0].value) == 'self'
+                and isinstance(st.value, ast.Name) and st.value.id in typed]
+        if not kept:
+            continue
+        for rel, tree in repo.trees.items():
+            for c in ast.walk(tree):
+                if isinstance(c, ast.Call) and unparse(c.func) == ci.name:
+                    fi = facts.func_of(c)
+                    if fi is not None and fi.key in memo_keys:
+                        out.append('%s.%s (created in the memoised %s)' % (ci.name, kept[0].split('.', 1)[1], fi.qual))
+    return sorted(set(out))
+
 def rule_memo_inventory(repo, res, rule):
     cg = get_callgraph(repo)
     facts = get_facts(repo)
@@ -418,9 +466,20 @@ def run(repo, res):
     for p in provs:
         g = p['fi']
         if g.qual not in BY_CONSTRUCTION:
-            res.note('%s resets its marker %s %s a finally; not armed: a leak needs an exception escaping the '
-                     'evaluation, which is the subject of C08' % (g.qual, p['marker'],
-                                                               'inside' if p['reset_safe'] else 'outside'))
+            # a leak needs an exception escaping the guarded extent (assist / location may raise SyntaxError: a project module that
+            # does not parse) *and* the guarded object outliving the request: armed when an instance is kept by an object that a
+            # memoised function creates (ClassScope.resolve -> ClassObject(ctx, ...))
+            keepers = retained_by_memoised_objects(repo, g.cls.name if g.cls is not None else None)
+            if not keepers:
+                res.note('%s resets its marker %s %s a finally; not armed: no object created in a memoised function keeps an instance'
+                         % (g.qual, p['marker'], 'inside' if p['reset_safe'] else 'outside'))
+                continue
+            res.check('C04-R2', '%s resets %s' % (g.qual, p['marker']), p['reset_safe'], g.rel, g.node.lineno,
+                      '%s clears its in-progress marker %s outside a finally, and its object outlives the request (%s): when the '
+                      'guarded computation raises (a project module that does not parse - assist and location pass the SyntaxError on) '
+                      'the node stays marked, and the next identical request is answered %s for it instead of the error or the real value '
+                      '- a different answer to a repeated request' % (g.qual, p['marker'], '; '.join(keepers[:2]), p['sentinel']),
+                      sample='%s: marker %s reset in a finally (kept by: %s)' % (g.qual, p['marker'], '; '.join(keepers[:2])))
             continue
         res.check('C04-R2', '%s resets %s' % (g.qual, p['marker']), p['reset_safe'], g.rel, g.node.lineno,
                   '%s clears its in-progress marker %s outside a finally: an exception inside the nested '
